@@ -54,4 +54,24 @@ PROPS = {
         "trivial_tags": [r":bad-op", r":nozone"],
         "assumptions": ["directory enumeration and path ordering by the OS/std are observed through the binary, not modelled"],
     },
+    "C05": {
+        "modules": ["Resolved.Props.C05"],
+        "streams": [{"name": "cache", "quick": 4000, "thorough": 80000}],
+        "trivial_tags": [r":bad-op", r"cache\.hist.*:len0/"],
+        "assumptions": [
+            "the real monotonic clock is replaced by the virtual clock hook (cfg resolved_verif)",
+            "D3: liveness is claimed from now + 1 s <= expiry (the reported TTL is the floor of the remaining seconds)",
+        ],
+        "trusted_extra": ["priority-queue crate: modelled as key->priority map with arg-min pop; contract assumed"],
+    },
+    "C15": {
+        "modules": ["Resolved.Props.C15"],
+        "streams": [{"name": "cache", "quick": 4000, "thorough": 80000},
+                    {"name": "cache-threads", "quick": 40, "thorough": 600, "shards": 2}],
+        "trivial_tags": [r":bad-op", r"cache\.hist.*:len0/"],
+        "assumptions": [
+            "std::sync::Mutex: every SharedCache method is one critical section, so a concurrent history is a sequential one (observed with 2-8 real threads, not proved)",
+        ],
+        "trusted_extra": ["priority-queue crate: modelled as key->priority map with arg-min pop; contract assumed"],
+    },
 }
